@@ -33,7 +33,7 @@ def run(ctx):
                     "insertion order, the objects of self.kernel are pairwise distinct (a heap of records)",
                     "networkx dag_longest_path / is_directed_acyclic_graph are parameters of the translated definition"]
     cases, recs = [], []
-    for case, kernel, dg, isa, gl, pipe in depcheck.synthetic(ctx, ctx.n(140, 2500), maxlen=12):
+    for case, kernel, dg, isa, gl, pipe in c04_family.guarded_synthetic(ctx, ctx.n(140, 2500), maxlen=12):
         ctx.count()
         if case["edges"]:
             ctx.nontriv((case["text"], case["db"]["isa_yaml"]))
@@ -78,7 +78,7 @@ def escalate(ctx):
     ctx.log("broken obligation without a failing input so far: %d more synthetic kernels through the brute-force chain oracle" % n)
     done = 0
     while done < n and not any(not v["known"] for v in ctx.violations):
-        for case, kernel, dg, isa, gl, pipe in depcheck.synthetic(ctx, 60, maxlen=12):
+        for case, kernel, dg, isa, gl, pipe in c04_family.guarded_synthetic(ctx, 60, maxlen=12):
             ctx.count()
             depcheck.cp_oracle(ctx, case)
         done += 60
@@ -94,7 +94,12 @@ def replay(ctx, obj):
         pipe = deps.Pipeline(ctx, r["isa"], arch=arch)
     else:
         return
-    case, kernel, dg = deps.build_case(pipe, r["text"], r["flagdeps"], reduce=not r.get("db"))
+    try:
+        case, kernel, dg = deps.build_case(pipe, r["text"], r["flagdeps"], reduce=not r.get("db"))
+    except Exception as e:  # noqa
+        ctx.count()
+        ctx.violation(obj["key"], "replay raises %r" % e, r)
+        return
     case["db"] = r.get("db")
     ctx.count()
     depcheck.cp_oracle(ctx, case)
